@@ -282,41 +282,7 @@ pub fn parent(scn: &dyn Scenario, tier: Tier, seed: u64) -> i32 {
     let wallcap = env_u64("VERIF_WALLCAP", if tier == Tier::Quick { 150 } else { 1500 });
     let exe = std::env::current_exe().expect("current_exe");
 
-    let mut children = Vec::new();
-    for w in 0..nw {
-        let ch = Command::new(&exe)
-            .args([
-                "worker",
-                id,
-                tier.name(),
-                &seed.to_string(),
-                &w.to_string(),
-                &nw.to_string(),
-                &total.to_string(),
-                &wallcap.to_string(),
-            ])
-            .stdin(Stdio::null())
-            .stdout(Stdio::piped())
-            .stderr(Stdio::inherit())
-            .spawn()
-            .expect("spawn worker");
-        children.push(ch);
-    }
-    let mut outs: Vec<WorkerOut> = Vec::new();
-    let mut harness_errors: Vec<String> = Vec::new();
-    for (w, mut ch) in children.into_iter().enumerate() {
-        let mut s = String::new();
-        ch.stdout.take().unwrap().read_to_string(&mut s).ok();
-        let status = ch.wait().expect("wait");
-        if !status.success() {
-            harness_errors.push(format!("worker {} exited with {:?}", w, status));
-            continue;
-        }
-        match s.lines().rev().find(|l| l.starts_with('{')).map(serde_json::from_str::<WorkerOut>) {
-            Some(Ok(o)) => outs.push(o),
-            _ => harness_errors.push(format!("worker {}: unparsable output", w)),
-        }
-    }
+    let (outs, mut harness_errors) = spawn_workers(&exe, id, tier, seed, nw, total, wallcap, false);
 
     // merge
     let mut st = Stats::default();
@@ -489,6 +455,230 @@ pub fn parent(scn: &dyn Scenario, tier: Tier, seed: u64) -> i32 {
         mismatches,
         compared
     );
+    for l in &known_lines {
+        println!("{}", l);
+    }
+    for l in &violation_lines {
+        println!("{}", l);
+    }
+    if !violation_lines.is_empty() {
+        return 1;
+    }
+    if !harness_errors.is_empty() {
+        for e in harness_errors.iter().take(10) {
+            eprintln!("HARNESS-ERROR: {}", e);
+        }
+        return 2;
+    }
+    println!("{}: OK", id);
+    0
+}
+
+
+/// Spawn `nw` worker processes of `exe` and collect their outputs.
+pub fn spawn_workers(exe: &std::path::Path, id: &str, tier: Tier, seed: u64, nw: u64, total: u64, wallcap: u64, all_digests: bool) -> (Vec<WorkerOut>, Vec<String>) {
+    let mut children = Vec::new();
+    for w in 0..nw {
+        let mut cmd = Command::new(exe);
+        cmd.args([
+            "worker",
+            id,
+            tier.name(),
+            &seed.to_string(),
+            &w.to_string(),
+            &nw.to_string(),
+            &total.to_string(),
+            &wallcap.to_string(),
+        ])
+        .stdin(Stdio::null())
+        .stdout(Stdio::piped())
+        .stderr(Stdio::inherit());
+        if all_digests {
+            cmd.env("VERIF_ALL_DIGESTS", "1");
+        }
+        children.push(cmd.spawn().expect("spawn worker"));
+    }
+    let mut outs: Vec<WorkerOut> = Vec::new();
+    let mut harness_errors: Vec<String> = Vec::new();
+    for (w, mut ch) in children.into_iter().enumerate() {
+        let mut s = String::new();
+        ch.stdout.take().unwrap().read_to_string(&mut s).ok();
+        let status = ch.wait().expect("wait");
+        if !status.success() {
+            harness_errors.push(format!("worker {} exited with {:?}", w, status));
+            continue;
+        }
+        match s.lines().rev().find(|l| l.starts_with('{')).map(serde_json::from_str::<WorkerOut>) {
+            Some(Ok(o)) => outs.push(o),
+            _ => harness_errors.push(format!("worker {}: unparsable output", w)),
+        }
+    }
+    (outs, harness_errors)
+}
+
+// ------------------------------------------------------------------------------------------
+// C18: the same corpus through several builds of this harness
+// ------------------------------------------------------------------------------------------
+
+/// `bins`: (configuration name, path of rngsim built in that configuration)
+pub fn parent_c18(scn: &dyn Scenario, tier: Tier, seed: u64, bins: &[(String, String)]) -> i32 {
+    let t0 = Instant::now();
+    let id = scn.id();
+    println!("VERIF_SEED={} property={} tier={} configurations={}", seed, id, tier.name(), bins.len());
+    let nw = env_u64("VERIF_WORKERS", 16).max(1);
+    let total = env_u64("VERIF_RUNS", scn.runs(tier));
+    let wallcap = env_u64("VERIF_WALLCAP", if tier == Tier::Quick { 150 } else { 1500 });
+    let mut harness_errors: Vec<String> = Vec::new();
+    let mut per_cfg: Vec<(String, BTreeMap<u64, u64>)> = Vec::new();
+    let mut st = Stats::default();
+    let mut samples: Vec<Spec> = Vec::new();
+    let mut runs_total = 0u64;
+    let mut per_cfg_stats = BTreeMap::new();
+    for (ci, (name, path)) in bins.iter().enumerate() {
+        let tc = Instant::now();
+        let (outs, errs) = spawn_workers(std::path::Path::new(path), id, tier, seed, nw, total, wallcap, true);
+        harness_errors.extend(errs.into_iter().map(|e| format!("[{}] {}", name, e)));
+        let mut m = BTreeMap::new();
+        let mut runs = 0;
+        let mut panics = 0;
+        for o in &outs {
+            runs += o.runs;
+            for (i, d) in &o.digests {
+                m.insert(*i, *d);
+            }
+            harness_errors.extend(o.harness_errors.iter().map(|e| format!("[{}] {}", name, e)));
+            panics += o.counters.get("probe:panic_marker").copied().unwrap_or(0);
+            if o.timed_out {
+                harness_errors.push(format!("[{}] wall-clock cap hit; the corpus was not completed", name));
+            }
+            if ci == 0 {
+                st.evals += o.evals;
+                for (k, v) in &o.counters {
+                    st.add(k, *v);
+                }
+                for s in &o.sigs {
+                    st.sigs.insert(*s);
+                }
+                if samples.len() < 2 {
+                    samples.extend(o.samples.iter().cloned());
+                }
+            }
+        }
+        runs_total += runs;
+        per_cfg_stats.insert(name.clone(), json!({"runs": runs, "panic_markers": panics, "wall_s": tc.elapsed().as_secs_f64()}));
+        per_cfg.push((name.clone(), m));
+    }
+    samples.truncate(2);
+    // compare every configuration with the first
+    let mut diffs: Vec<(u64, String, String)> = Vec::new();
+    if let Some((base_name, base)) = per_cfg.first() {
+        for (name, m) in per_cfg.iter().skip(1) {
+            if m.len() != base.len() {
+                harness_errors.push(format!("configuration {} produced {} digests, {} produced {}", name, m.len(), base_name, base.len()));
+            }
+            for (i, d) in base {
+                if let Some(d2) = m.get(i) {
+                    if d2 != d {
+                        diffs.push((*i, base_name.clone(), name.clone()));
+                    }
+                }
+            }
+        }
+    }
+    diffs.sort();
+    let mut violation_lines = Vec::new();
+    let mut known_lines = Vec::new();
+    let kf = load_known_findings();
+    let replays = verif_dir().join("replays");
+    let mut seen_idx: Vec<u64> = Vec::new();
+    for (idx, a, b) in &diffs {
+        if seen_idx.contains(idx) || seen_idx.len() >= 3 {
+            continue;
+        }
+        seen_idx.push(*idx);
+        // regenerate the spec of that run and locate the first differing operation by running it
+        // in both configurations
+        let mut rng = Prng::new(run_seed(seed, id, *idx));
+        let spec = scn.generate(&mut rng, tier);
+        std::fs::create_dir_all(&replays).ok();
+        let path = replays.join(format!("{}-{}-{}.json", id, seed, idx));
+        let pa = bins.iter().find(|x| x.0 == *a).map(|x| x.1.clone()).unwrap_or_default();
+        let pb = bins.iter().find(|x| x.0 == *b).map(|x| x.1.clone()).unwrap_or_default();
+        let mut rf = ReplayFile {
+            property: id.to_string(),
+            class: "C18/digest_differs".into(),
+            key: format!("{}:{}", spec.kind.map(|k| k.name()).unwrap_or("?"), spec.variant),
+            detail: format!("run {} yields different outputs in configurations {} and {}", idx, a, b),
+            verif_seed: seed,
+            run_index: *idx,
+            tier: tier.name().to_string(),
+            shrink_steps: 0,
+            spec: spec.clone(),
+        };
+        std::fs::write(&path, serde_json::to_string_pretty(&rf).unwrap()).expect("write replay");
+        let per_op = |bin: &str| -> Vec<u64> {
+            Command::new(bin)
+                .args(["corpus-one", path.to_str().unwrap()])
+                .output()
+                .ok()
+                .map(|o| String::from_utf8_lossy(&o.stdout).split_whitespace().filter_map(|t| t.parse::<u64>().ok()).collect())
+                .unwrap_or_default()
+        };
+        let (va, vb) = (per_op(&pa), per_op(&pb));
+        if va == vb {
+            harness_errors.push(format!("digest difference of run {} between {} and {} did not reproduce in fresh processes", idx, a, b));
+            continue;
+        }
+        // minimise: cut the history after the first differing operation
+        let first = va.iter().zip(vb.iter()).position(|(x, y)| x != y).unwrap_or(va.len().min(vb.len()));
+        if first < spec.ops.len() {
+            rf.spec.ops.truncate(first + 1);
+            rf.shrink_steps = 1;
+            rf.detail = format!("{}; first differing operation: #{} {:?}", rf.detail, first, spec.ops[first]);
+            std::fs::write(&path, serde_json::to_string_pretty(&rf).unwrap()).expect("write replay");
+        }
+        if let Some(text) = known(&kf, id, &rf.class, &rf.key) {
+            known_lines.push(format!("KNOWN-FINDING: property={} {}", id, text));
+        } else {
+            println!("violation: class={} key={} run={} detail={}", rf.class, rf.key, idx, rf.detail);
+            violation_lines.push(format!("VIOLATION property={} replay={}", id, path.display()));
+        }
+    }
+    let wall = t0.elapsed().as_secs_f64();
+    let mut probes = BTreeMap::new();
+    for (k, v) in &st.counters {
+        probes.insert(k.trim_start_matches("probe:").to_string(), *v);
+    }
+    let ev = json!({
+        "property_id": id,
+        "tier": tier.name(),
+        "seed": seed,
+        "level": scn.level(),
+        "coverage": {
+            "evaluations": runs_total,
+            "distinct_nontrivial": st.sigs.len(),
+            "rule": scn.rule(),
+            "samples": samples,
+            "exhaustive": false,
+            "runs_per_configuration": total,
+            "configurations": bins.iter().map(|b| b.0.clone()).collect::<Vec<_>>(),
+            "per_configuration": per_cfg_stats,
+            "digest_differences": diffs.len(),
+            "runs_per_hour": if wall > 0.0 { (runs_total as f64 / wall * 3600.0) as u64 } else { 0 },
+            "probes": probes,
+            "components": scn.components(),
+            "determinism_selfcheck": {"how": "this check IS the replay-determinism check: identical corpus, per-run digests compared across builds", "runs_compared": runs_total, "mismatches": diffs.len()},
+            "workers": nw,
+            "known_findings_matched": known_lines.len(),
+        },
+        "assumptions": scn.assumptions(),
+        "wall_s": wall,
+        "violations": violation_lines.len(),
+    });
+    let evdir = verif_dir().join("evidence");
+    std::fs::create_dir_all(&evdir).ok();
+    std::fs::write(evdir.join(format!("{}.json", id)), serde_json::to_string_pretty(&ev).unwrap()).expect("write evidence");
+    println!("{}: corpus runs={} x {} configurations, digest differences={} wall={:.1}s", id, total, bins.len(), diffs.len(), wall);
     for l in &known_lines {
         println!("{}", l);
     }
